@@ -43,11 +43,14 @@ Theorem C03_refused_tokens :
   forall bi st,
     (forall sp, bstep bi st (TkDtd sp) = BErr (PEDtdUnsupported sp))
     /\ (forall pos, bstep bi st (TkError pos) = BErr (PEXmlParser pos))
-    /\ (forall v, ss_text v <> s_version_10 -> bstep bi st (TkDecl v) = BErr (PEUnsupportedVersion (ss_text v) (ss_span v))).
+    /\ (forall v e, ss_text v <> s_version_10 -> bstep bi st (TkDecl v e) = BErr (PEUnsupportedVersion (ss_text v) (ss_span v)))
+    /\ (forall v e, ss_text v = s_version_10 -> valid_encname (ss_text e) = false ->
+          bstep bi st (TkDecl v (Some e)) = BErr (PEXmlParser (sp_start (ss_span e)))).
 Proof.
-  intros bi st. split; [reflexivity|]. split; [reflexivity|]. intros v Hv. cbn.
-  destruct (str_eqb (ss_text v) s_version_10) eqn:E; [|reflexivity].
-  apply str_eqb_eq in E. contradiction.
+  intros bi st. split; [reflexivity|]. split; [reflexivity|]. split.
+  - intros v e Hv. cbn. destruct (str_eqb (ss_text v) s_version_10) eqn:E; [|reflexivity].
+    apply str_eqb_eq in E. contradiction.
+  - intros v e Hv He. cbn. rewrite Hv. assert (str_eqb s_version_10 s_version_10 = true) as -> by reflexivity. rewrite He. reflexivity.
 Qed.
 Print Assumptions C03_refused_tokens.
 
